@@ -141,10 +141,14 @@ class FaultFS:
             raise CrashNow()
         return _FFile(self, path, mode, kwargs.get("encoding"))
 
+    on_point = None  # optional callable(op): lets a thread scheduler treat file operations as scheduling points
+
     def point(self, op):
         """Called before every mutating operation. Returns a torn-write cut or None."""
         if self.crashed:
             return None
+        if self.on_point is not None:
+            self.on_point(op)
         idx = len(self.ops)
         self.ops.append(op)
         if self.at is not None and idx == self.at and not self.injected:
